@@ -23,6 +23,13 @@ from .generators import LazyGenerators
 CALLABLE_TAGS = ("func", "method", "boundmethod", "bound", "partial", "builtin", "listappend", "attrgetter", "itemgetter", "methodcaller", "classref", "ctorref", "userfn", "setmethod", "decoderfactory", "decodermethod", "strmethod", "dictmethod", "supermethod", "excclass", "trackedfn", "setattrmethod", "const-fn", "pytype")
 
 
+def norm_expr(e):
+    try:
+        return ast.unparse(e)[:60]
+    except Exception:
+        return "<expression>"
+
+
 def is_mangled(attr):
     """A name-mangled private attribute (`self.__x` written inside class C is `_C__x`; ttsa.loader mangles on load)."""
     import re
@@ -170,6 +177,139 @@ class ObjectDomain(LazyGenerators, EffectDomain):
                 return None
         return None
 
+    # -- members a class gets by running code: loops in the class body writing to locals(), setattr(Class, ...) after the
+    #    class statement, class decorators.  That code is run (once per class) like any other; what it defines is looked up
+    #    after the members the class statement spells out.
+    _dyn_cache = {}
+
+    def _dynamic_programs(self, c):
+        """(function running the compound statements of the class body, function running what completes the class afterwards)."""
+        import copy
+        from .loader import _annotate
+        key = ("prog", id(c.node))
+        hit = self._dyn_cache.get(key)
+        if hit is not None and hit[0] is c.node:
+            return hit[1]
+        module = getattr(c.node, "_module", None)
+        tree = getattr(module, "tree", None)
+        compound = [s_ for s_ in c.node.body if isinstance(s_, (ast.For, ast.While, ast.If, ast.With, ast.Try))]
+        after = []
+        if tree is not None and c.node in tree.body:
+            for s_ in tree.body[tree.body.index(c.node) + 1:]:
+                if isinstance(s_, (ast.FunctionDef, ast.AsyncFunctionDef, ast.ClassDef, ast.Import, ast.ImportFrom)):
+                    continue
+                touches = False
+                for n_ in ast.walk(s_):
+                    if isinstance(n_, ast.Call) and dotted(n_.func) == "setattr" and n_.args and isinstance(n_.args[0], ast.Name) and n_.args[0].id == c.node.name:
+                        touches = True
+                    if isinstance(n_, ast.Attribute) and isinstance(n_.ctx, ast.Store) and isinstance(n_.value, ast.Name) and n_.value.id == c.node.name:
+                        touches = True
+                if touches:
+                    after.append(s_)
+        decorators = [d_ for d_ in c.node.decorator_list if (dotted(d_.func if isinstance(d_, ast.Call) else d_) or "").split(".")[-1] not in ("dataclass", "total_ordering", "final")]
+        body_f = after_f = None
+        if compound:
+            class _NS(ast.NodeTransformer):
+                def visit_Call(self, node):
+                    self.generic_visit(node)
+                    if isinstance(node.func, ast.Name) and node.func.id in ("locals", "vars") and not node.args and not node.keywords:
+                        return ast.copy_location(ast.Name(id="_class_namespace", ctx=ast.Load()), node)
+                    return node
+            body_f = ast.parse("def _f():\n    _class_namespace = {}\n    return _class_namespace\n").body[0]
+            body_f.body[1:1] = [_NS().visit(copy.deepcopy(s_)) for s_ in compound]
+            body_f.name = f"<class body of {c.name}>"
+            holder = ast.Module(body=[body_f], type_ignores=[])
+            ast.fix_missing_locations(holder)
+            _annotate(holder, module)
+            body_f._parent = c.node   # names of the class body are in scope, then the module's
+        if after or decorators:
+            after_f = ast.parse(f"def _f({c.node.name}):\n    return {c.node.name}\n").body[0]
+            # (decorators run when the class statement ends, before the statements that follow it)
+            stmts = [ast.Assign(targets=[ast.Name(id=c.node.name, ctx=ast.Store())],
+                                value=ast.Call(func=copy.deepcopy(d_), args=[ast.Name(id=c.node.name, ctx=ast.Load())], keywords=[]), type_comment=None) for d_ in reversed(decorators)]
+            stmts += [copy.deepcopy(s_) for s_ in after]
+            after_f.body[0:0] = stmts
+            after_f.name = f"<after the class statement of {c.name}>"
+            holder = ast.Module(body=[after_f], type_ignores=[])
+            ast.fix_missing_locations(holder)
+            _annotate(holder, module)
+            after_f._parent = tree
+        self._dyn_cache[key] = (c.node, (body_f, after_f))
+        return body_f, after_f
+
+    def _dynamic_run(self, interp, c, st, fr):
+        """Run the code that gives class ``c`` further members, in state ``st`` -> [(members, state)]."""
+        body_f, after_f = self._dynamic_programs(c)
+        cur = [({}, st)]
+        if body_f is not None:
+            nxt = []
+            for members, s_ in cur:
+                for r in interp.inline(body_f, {}, s_, fr, is_method=False):
+                    if r.kind != "val":
+                        raise Undecided(f"the body of class {c.name} raises {r.value!r} when it is run")
+                    v = unbox(r.value, r.state)
+                    if not (isinstance(v, tuple) and v[:1] == ("kwdict",)):
+                        raise Undecided(f"what the loops in the body of class {c.name} define could not be determined")
+                    nxt.append((dict(members, **dict(v[1])), r.state))
+            cur = nxt
+        if after_f is not None:
+            nxt = []
+            prefix = f"cls.{c.name}."
+            for members, s_ in cur:
+                for r in interp.inline(after_f, {c.node.name: ("classref", c)}, s_, fr, is_method=False):
+                    if r.kind != "val":
+                        raise Undecided(f"the code that completes class {c.name} raises {r.value!r} when it is run")
+                    if r.value != ("classref", c):
+                        raise Undecided(f"a decorator of class {c.name} replaces the class by something else")
+                    found = {k_[len(prefix):]: v_ for k_, v_ in r.state.items if k_.startswith(prefix)}
+                    nxt.append((dict(members, **found), type(r.state)(frozenset((k_, v_) for k_, v_ in r.state.items if not k_.startswith(prefix)), r.state.log)))
+            cur = nxt
+        return cur
+
+    def _dynamic_names(self, interp, c, fr):
+        from .absint import State
+        key = ("names", id(c.node))
+        hit = self._dyn_cache.get(key)
+        if hit is not None and hit[0] is c.node:
+            if isinstance(hit[1], str):
+                raise Undecided(hit[1])
+            return hit[1]
+        if self._dynamic_programs(c) == (None, None):
+            self._dyn_cache[key] = (c.node, frozenset())
+            return frozenset()
+        self._dyn_cache[key] = (c.node, frozenset())   # (while it is being computed: nothing)
+        try:
+            runs = self._dynamic_run(interp, c, State(), fr)
+        except Undecided as e_:
+            self._dyn_cache[key] = (c.node, str(e_))
+            raise
+        names = frozenset(n_ for members, _ in runs for n_ in members)
+        if any(set(members) != set(names) for members, _ in runs):
+            msg = f"the members class {c.name} gets from the code in / after its body differ from path to path"
+            self._dyn_cache[key] = (c.node, msg)
+            raise Undecided(msg)
+        self._dyn_cache[key] = (c.node, names)
+        return names
+
+    def _dynamic_lookup(self, interp, ci, attr, obj, st, fr):
+        """``attr`` among the members the classes of the MRO get by running code -> results (bound to ``obj``), or None."""
+        if interp is None:
+            return None
+        for c in self.classes.mro(ci):
+            if c.external or not self._followed(c):
+                continue
+            if attr in c.methods or attr in c.attrs:
+                return None
+            if attr in self._dynamic_names(interp, c, fr):
+                out = []
+                for members, s_ in self._dynamic_run(interp, c, st, fr):
+                    v = members[attr]
+                    if isinstance(v, tuple) and v[:1] == ("func",):
+                        v = ("partial", v, (obj,), ())   # a function kept in the class: looked up on an instance it is bound to it
+                    out.append(val(v, s_))
+                return out
+        return None
+
     def _class_of_expr(self, expr, fr):
         """ClassInfo of an in-repo, non-exception class that the callee expression names, else None."""
         if not isinstance(expr, (ast.Name, ast.Attribute)):
@@ -229,6 +369,9 @@ class ObjectDomain(LazyGenerators, EffectDomain):
             # (a function kept in a class attribute is a method: looked up on an instance it is bound to it)
             return [r if r.kind == "exc" or not (isinstance(r.value, tuple) and r.value[:1] == ("func",)) else val(("partial", r.value, (inst,), ()), r.state)
                     for r in self._eval_class_expr(interp, got[0], got[1], st, fr)]
+        dyn = self._dynamic_lookup(interp, ci, attr, inst, st, fr) if not (attr.startswith("__") and attr.endswith("__")) else None
+        if dyn is not None:
+            return dyn
         fallback = self._method(ci, "__getattr__") if not (attr.startswith("__") and attr.endswith("__")) else None
         if fallback is not None and interp is not None:
             # normal lookup failed: the class's __getattr__ answers
@@ -480,6 +623,9 @@ class ObjectDomain(LazyGenerators, EffectDomain):
             got = self._class_attr_expr(root, attr)
             if got is not None:
                 return self._bound_to_root(self._eval_class_expr(interp, got[0], got[1], st, fr))
+            dyn = self._dynamic_lookup(interp, root, attr, ("self",), st, fr)
+            if dyn is not None:
+                return dyn
         if self.track(key) or key in self.results:
             return [val(("method", attr), st)]
         if self.root_attr_absent(attr):
@@ -601,6 +747,9 @@ class ObjectDomain(LazyGenerators, EffectDomain):
         got = self._class_attr_expr(fr.receiver, chain[1])
         if got is not None:
             return self._bound_to_root(self._eval_class_expr(interp, got[0], got[1], st, fr))
+        dyn = self._dynamic_lookup(interp, fr.receiver, chain[1], ("self",), st, fr)
+        if dyn is not None:
+            return dyn
         if self.root_attr_absent(chain[1]):
             return [exc(("exc", "AttributeError"), st)]   # an attribute nobody assigned
         return None
@@ -808,6 +957,8 @@ class ObjectDomain(LazyGenerators, EffectDomain):
         got = super().store_attr_on(base, attr, value, st, fr)
         if got is not None:
             return got
+        if isinstance(base, tuple) and base[:1] == ("classref",) and len(base) == 2 and hasattr(base[1], "name"):
+            return st.set(f"cls.{base[1].name}.{attr}", value)   # setattr(Class, name, value): a member of the class
         if base == ("self",):
             return st.set("self." + attr, value)
         if is_inst(base):
@@ -1909,6 +2060,29 @@ class ObjectDomain(LazyGenerators, EffectDomain):
                     else:
                         out.extend(self.apply(interp, fnv, pos, kw, s2, fr))
                 return out
+            if fnv is None and isinstance(f_, ast.Name) and not st.has(fr.local(f_.id)) and f_.id not in self.attrs and self._lookup_function(f_.id, fr) is None \
+                    and self.classes.lookup_function(getattr(fr.func, "_module", None), f_.id) is None and self._class_of_expr(f_, fr) is None:
+                # NAME(...) where NAME is a module-level variable holding something callable (made by a factory, a partial ...)
+                made = self._module_table(interp, f_.id, st, fr)
+                if made and all(r.kind == "exc" or (isinstance(r.value, tuple) and r.value[:1] and r.value[0] in CALLABLE_TAGS) for r in made):
+                    out = []
+                    for m_ in made:
+                        if m_.kind == "exc":
+                            out.append(m_)
+                            continue
+                        for bad, pos, kw, s2 in self._call_args(interp, call, m_.state, fr):
+                            if bad is not None:
+                                out.append(bad)
+                            elif pos is None:
+                                out.append(self._unknown_arguments(call, s2, fr))
+                            else:
+                                out.extend(self.apply(interp, m_.value, pos, kw, s2, fr))
+                    return out
+                tree_ = getattr(getattr(fr.func, "_module", None), "tree", None)
+                if self.strict_calls and tree_ is not None and f_.id not in self.results and not self.track(f_.id) and any(
+                        isinstance(s_, (ast.Assign, ast.AnnAssign)) and any(isinstance(t_, ast.Name) and t_.id == f_.id for t_ in (s_.targets if isinstance(s_, ast.Assign) else [s_.target]))
+                        for s_ in tree_.body):
+                    raise Undecided(f"`{f_.id}(...)` in {fr.name}: a module-level variable whose value the analysis could not determine is called")
             if fnv == TOP and self.strict_calls and isinstance(f_, ast.Name):
                 raise Undecided(f"`{f_.id}(...)` in {fr.name}: the analysis could not determine what the variable holds, so it cannot tell what the call does")
             # self.x(...) where the attribute x of the analysed object holds a callable value (a callback given to the constructor, ...)
@@ -1951,6 +2125,8 @@ class ObjectDomain(LazyGenerators, EffectDomain):
             if isinstance(f_, (ast.Call, ast.Subscript, ast.BoolOp, ast.IfExp)) or (isinstance(f_, ast.Attribute) and not attr_chain(f_) and not (dotted(f_) or "").startswith("super()")
                                                              and not any(isinstance(n_, ast.Call) for n_ in ast.walk(f_.value))):
                 vals = interp.eval(f_, st, fr)
+                if self.strict_calls and isinstance(f_, (ast.Call, ast.Subscript)) and any(r.kind == "val" and r.value == TOP for r in vals):
+                    raise Undecided(f"`{norm_expr(f_)}(...)` in {fr.name}: the analysis could not determine what is called")
                 if vals and all(r.kind == "exc" or (isinstance(r.value, tuple) and r.value[:1] and (r.value[0] in CALLABLE_TAGS + ("wobj",) or is_inst(r.value))) for r in vals):
                     out = []
                     for r in vals:
